@@ -1,28 +1,190 @@
-/- C11 — TinyLFU estimates (initial: the packed-counter arithmetic, complete finite tables by `decide +kernel`) -/
-import Caches.Model.TinyLfu
-namespace C11
-open M
+/-
+  C11 — TinyLFU estimates never under-count, age on schedule, and compare consistently.
 
-/-- saturating increment of one nibble leaves the other nibble alone; result stays a byte -/
+  Reference (`TinyLfu.Ref`): exact per-hash bookkeeping written from the property text — the first access in a
+  sample window sets the doorkeeper bit, further ones count up to 15, every reset halves the counts and clears
+  the doorkeeper; a reset happens exactly when the number of recorded accesses plus explicit `try_reset` calls
+  reaches the sample size.
+  Theorems hold for every well-formed estimator (`TinyLfu.WF`: any number of rows ≥ 1, any row width covering
+  the mask, any seeds, any Bloom geometry without overflow), both position schemes, every raw 64-bit hash and every
+  interleaving of `increment`, `try_reset`, `clear` — by induction over the history.
+-/
+import Caches.Lemmas.TinyLfu
+set_option linter.unusedSectionVars false
+set_option linter.unusedVariables false
+namespace C11
+open M M.TinyLfu
+
+/-- saturating increment of one nibble leaves the other nibble alone; result stays a byte (all 256 bytes) -/
 theorem nib_inc_spec : ∀ b, b < 256 → ∀ odd : Bool,
     Nib.inc b odd < 256 ∧ Nib.get (Nib.inc b odd) odd = min 15 (Nib.get b odd + 1) ∧
-    Nib.get (Nib.inc b odd) (!odd) = Nib.get b (!odd) := by decide +kernel
+    Nib.get (Nib.inc b odd) (!odd) = Nib.get b (!odd) := Nib.inc_spec
 
-/-- `(b >> 1) & 0x77` halves both nibbles -/
+/-- `(b >> 1) & 0x77` halves both nibbles (all 256 bytes) -/
 theorem nib_halve_spec : ∀ b, b < 256 → ∀ odd : Bool,
-    Nib.halve b < 256 ∧ Nib.get (Nib.halve b) odd = Nib.get b odd / 2 := by decide +kernel
+    Nib.halve b < 256 ∧ Nib.get (Nib.halve b) odd = Nib.get b odd / 2 := Nib.halve_spec
 
-theorem nib_le : ∀ b, b < 256 → ∀ odd : Bool, Nib.get b odd ≤ 15 := by decide +kernel
+/-- the operations that change the estimator -/
+inductive Op | inc (h : UInt64) | tryReset | clear
 
-/-- a reset happens exactly when the window counter reaches the sample size -/
+def stepT (t : TinyLfu) : Op → Res TinyLfu
+  | .inc h => t.increment h
+  | .tryReset => .ok t.tryReset
+  | .clear => .ok t.clear
+
+def stepR (samples : Nat) (r : Ref) : Op → Ref
+  | .inc h => r.increment samples h
+  | .tryReset => r.tryReset samples
+  | .clear => Ref.zero
+
+def runT : TinyLfu → List Op → Res TinyLfu
+  | t, [] => .ok t
+  | t, o :: rest => match stepT t o with
+    | .error f => .error f
+    | .ok t' => runT t' rest
+
+def runR (samples : Nat) : Ref → List Op → Ref
+  | r, [] => r
+  | r, o :: rest => runR samples (stepR samples r o) rest
+
+/-- one step keeps the estimator well-formed (no fault), its geometry, and the simulation -/
+theorem sim_step (t : TinyLfu) (r : Ref) (o : Op) (hwf : t.WF) (hs : Sim t r) :
+    ∃ t', stepT t o = .ok t' ∧ t'.WF ∧ SameGeo t t' ∧ Sim t' (stepR t.samples r o) := by
+  cases o with
+  | inc h => exact sim_increment t r hwf hs h
+  | tryReset =>
+    have := tryReset_wf t hwf
+    exact ⟨_, rfl, this.1, this.2, sim_tryReset t r hwf hs⟩
+  | clear =>
+    have := clear_spec t hwf
+    exact ⟨_, rfl, this.1, this.2.1, sim_clear t hwf⟩
+
+/-- **simulation over every history**: no operation faults (C05 for the estimator) and the estimator dominates the reference -/
+theorem sim_run (ops : List Op) (t : TinyLfu) (r : Ref) (hwf : t.WF) (hs : Sim t r) :
+    ∃ t', runT t ops = .ok t' ∧ t'.WF ∧ SameGeo t t' ∧ Sim t' (runR t.samples r ops) := by
+  induction ops generalizing t r with
+  | nil => exact ⟨t, rfl, hwf, sameGeo_refl t, hs⟩
+  | cons o rest ih =>
+    obtain ⟨t1, h1, hwf1, hg1, hs1⟩ := sim_step t r o hwf hs
+    obtain ⟨t2, h2, hwf2, hg2, hs2⟩ := ih t1 _ hwf1 hs1
+    refine ⟨t2, by simp only [runT, h1, h2], hwf2, sameGeo_trans _ _ _ hg1 hg2, ?_⟩
+    have : t1.samples = t.samples := hg1.2.2.2.2
+    rw [this] at hs2
+    exact hs2
+
+/-- a freshly cleared (or constructed: all counters and bits zero) estimator simulates the zero reference -/
+theorem sim_fresh (t : TinyLfu) (hwf : t.WF) : Sim t.clear Ref.zero := sim_clear t hwf
+
+/-- **never under-counts, never exceeds 16**: after any history from a cleared estimator, for every hash -/
+theorem never_undercount (ops : List Op) (t : TinyLfu) (hwf : t.WF) (h : UInt64) :
+    ∃ t' e, runT t.clear ops = .ok t' ∧ t'.estimate h = .ok e ∧
+      (runR t.samples Ref.zero ops).estimate h ≤ e ∧ e ≤ 16 := by
+  have cs := clear_spec t hwf
+  obtain ⟨t', hr, hwf', hg, hs⟩ := sim_run ops t.clear Ref.zero cs.1 (sim_clear t hwf)
+  have hsm : t.clear.samples = t.samples := cs.2.1.2.2.2.2
+  rw [hsm] at hs
+  obtain ⟨e, he, hlo, hhi⟩ := estimate_bounds t' _ hwf' hs h
+  exact ⟨t', e, hr, he, hlo, hhi⟩
+
+/-- **no false negatives**: a hash recorded since the last reset is reported by the doorkeeper -/
+theorem no_false_negative (ops : List Op) (t : TinyLfu) (hwf : t.WF) (h : UInt64)
+    (hd : (runR t.samples Ref.zero ops).door h = true) :
+    ∃ t', runT t.clear ops = .ok t' ∧ t'.contains h = .ok true := by
+  have cs := clear_spec t hwf
+  obtain ⟨t', hr, hwf', hg, hs⟩ := sim_run ops t.clear Ref.zero cs.1 (sim_clear t hwf)
+  have hsm : t.clear.samples = t.samples := cs.2.1.2.2.2.2
+  rw [hsm] at hs
+  exact ⟨t', hr, contains_of_ref t' _ hwf' hs h hd⟩
+
+/-- **0 for every key right after clear** -/
+theorem zero_after_clear (t : TinyLfu) (hwf : t.WF) (h : UInt64) : t.clear.estimate h = .ok 0 := by
+  have := estimate_exact t.clear Ref.zero h (clear_spec t hwf).1 (exact_clear t hwf h)
+  simpa [Ref.estimate, Ref.zero] using this
+
+/-- histories that only ever record the hash `h0` -/
+def onlyHash (h0 : UInt64) : List Op → Prop
+  | [] => True
+  | .inc h :: rest => h = h0 ∧ onlyHash h0 rest
+  | _ :: rest => onlyHash h0 rest
+
+theorem exact_run (ops : List Op) (h0 : UInt64) (t : TinyLfu) (r : Ref) (hwf : t.WF) (hs : Exact t r h0)
+    (ho : onlyHash h0 ops) :
+    ∃ t', runT t ops = .ok t' ∧ t'.WF ∧ t'.samples = t.samples ∧ Exact t' (runR t.samples r ops) h0 := by
+  induction ops generalizing t r with
+  | nil => exact ⟨t, rfl, hwf, rfl, hs⟩
+  | cons o rest ih =>
+    cases o with
+    | inc h =>
+      obtain ⟨rfl, ho'⟩ := ho
+      obtain ⟨t1, h1, hwf1, hg1, hs1⟩ := exact_increment t r h hwf hs
+      obtain ⟨t2, h2, hwf2, hsm2, hs2⟩ := ih t1 _ hwf1 hs1 ho'
+      have : t1.samples = t.samples := hg1.2.2.2.2
+      rw [this] at hs2 hsm2
+      exact ⟨t2, by simp only [runT, stepT, h1, h2], hwf2, hsm2, hs2⟩
+    | tryReset =>
+      have tw := tryReset_wf t hwf
+      obtain ⟨t2, h2, hwf2, hsm2, hs2⟩ := ih t.tryReset _ tw.1 (exact_tryReset t r h0 hwf hs) ho
+      have : t.tryReset.samples = t.samples := tw.2.2.2.2.2
+      rw [this] at hs2 hsm2
+      exact ⟨t2, by simp only [runT, stepT, h2], hwf2, hsm2, hs2⟩
+    | clear =>
+      have cs := clear_spec t hwf
+      obtain ⟨t2, h2, hwf2, hsm2, hs2⟩ := ih t.clear _ cs.1 (exact_clear t hwf h0) ho
+      have : t.clear.samples = t.samples := cs.2.1.2.2.2.2
+      rw [this] at hs2 hsm2
+      exact ⟨t2, by simp only [runT, stepT, h2], hwf2, hsm2, hs2⟩
+
+/-- **exact when only one key has ever been recorded** -/
+theorem exact_single_key (ops : List Op) (h0 : UInt64) (t : TinyLfu) (hwf : t.WF) (ho : onlyHash h0 ops) :
+    ∃ t', runT t.clear ops = .ok t' ∧ t'.estimate h0 = .ok ((runR t.samples Ref.zero ops).estimate h0) := by
+  have cs := clear_spec t hwf
+  obtain ⟨t', hr, hwf', _, hs⟩ := exact_run ops h0 t.clear Ref.zero cs.1 (exact_clear t hwf h0) ho
+  have hsm : t.clear.samples = t.samples := cs.2.1.2.2.2.2
+  rw [hsm] at hs
+  exact ⟨t', hr, estimate_exact t' _ h0 hwf' hs⟩
+
+/-- **reset schedule**: the window counter counts `increment`s and explicit `try_reset`s since the last reset,
+    and a reset (counter back to 0, doorkeeper cleared, counts halved) happens exactly when it reaches `samples` -/
 theorem tryReset_schedule (t : TinyLfu) :
-    t.tryReset.w = (if t.w + 1 ≥ t.samples then 0 else t.w + 1) := by
-  unfold TinyLfu.tryReset TinyLfu.reset
-  by_cases h : t.w + 1 ≥ t.samples <;> simp [h]
+    (t.w + 1 ≥ t.samples → t.tryReset = ({ t with w := t.w + 1 } : TinyLfu).reset ∧ t.tryReset.w = 0) ∧
+    (t.w + 1 < t.samples → t.tryReset = { t with w := t.w + 1 }) := by
+  rcases tryReset_cases t with ⟨h1, h2⟩ | ⟨h1, h2⟩
+  · exact ⟨fun _ => ⟨h2, by rw [h2]; rfl⟩, fun hc => by omega⟩
+  · exact ⟨fun hc => by omega, fun _ => h2⟩
 
-/-- the five comparison helpers order two keys exactly as their estimates do -/
-theorem compare_consistent (t : TinyLfu) (c : TinyLfu.Cmp) (a b : UInt64) (ea eb : Nat)
-    (ha : t.estimate a = .ok ea) (hb : t.estimate b = .ok eb) :
-    t.compare c a b = .ok (c.eval ea eb) := by
-  simp [TinyLfu.compare, TinyLfu.compareHelper, ha, hb]
+theorem window_counter_tracks (ops : List Op) (t : TinyLfu) (hwf : t.WF) :
+    ∃ t', runT t.clear ops = .ok t' ∧ t'.w = (runR t.samples Ref.zero ops).w := by
+  have cs := clear_spec t hwf
+  obtain ⟨t', hr, _, _, hs⟩ := sim_run ops t.clear Ref.zero cs.1 (sim_clear t hwf)
+  have hsm : t.clear.samples = t.samples := cs.2.1.2.2.2.2
+  rw [hsm] at hs
+  exact ⟨t', hr, hs.w_eq⟩
+
+/-- **comparisons**: `lt/le/gt/ge/eq` order two keys exactly as their estimates do, and never fault -/
+theorem compare_consistent (t : TinyLfu) (hwf : t.WF) (c : TinyLfu.Cmp) (a b : UInt64) :
+    ∃ ea eb, t.estimate a = .ok ea ∧ t.estimate b = .ok eb ∧ t.compare c a b = .ok (c.eval ea eb) := by
+  obtain ⟨ea, ba, ha, _⟩ := estimate_spec t hwf a
+  obtain ⟨eb, bb, hb, _⟩ := estimate_spec t hwf b
+  refine ⟨_, _, ha, hb, ?_⟩
+  unfold TinyLfu.compare TinyLfu.compareHelper
+  rw [ha, hb]
+
+theorem cmp_eval_spec (a b : Nat) :
+    TinyLfu.Cmp.eq.eval a b = decide (a = b) ∧ TinyLfu.Cmp.le.eval a b = decide (a ≤ b) ∧ TinyLfu.Cmp.lt.eval a b = decide (a < b) ∧
+    TinyLfu.Cmp.gt.eval a b = decide (a > b) ∧ TinyLfu.Cmp.ge.eval a b = decide (a ≥ b) := by
+  refine ⟨?_, rfl, rfl, rfl, rfl⟩
+  show (a == b) = decide (a = b)
+  by_cases h : a = b <;> simp [h]
+
+/-- non-vacuity: a concrete well-formed estimator (2 counters per row, 512-bit doorkeeper with 1 probe) -/
+def sample : TinyLfu :=
+  { sketch := { rows := [[0], [0], [0], [0]], mask := 1, scheme := .core },
+    door := { bits := List.replicate 8 0, sizeMask := 511, setLocs := 1, shift := 55 }, samples := 4, w := 0 }
+
+example : sample.WF := by
+  refine ⟨⟨?_, trivial, by decide⟩, ⟨by decide, by decide, by decide, by decide⟩⟩
+  intro r hr
+  simp [sample] at hr
+  subst hr
+  exact ⟨by intro b hb; simp at hb; omega, by decide⟩
 end C11
